@@ -205,7 +205,7 @@ func c20IsSend(file string, line int) bool {
 }
 
 // c20Profile counts the goroutines started by call id (goroutine label, inherited from the caller) that
-// sit inside unblindProposal's relay closure: all of them, and those whose innermost Vouch frame is the
+// sit inside one of unblindProposal's closures: all of them, and those whose innermost Vouch frame is the
 // channel send statement (the goroutine profile does not show runtime frames; the statement is read
 // from the source file the frame names).
 func c20Profile(id int) (total int, sending int) {
@@ -215,7 +215,7 @@ func c20Profile(id int) (total int, sending int) {
 	}
 	label := fmt.Sprintf("\"c20call\":\"%d\"", id)
 	for _, blk := range strings.Split(buf.String(), "\n\n") {
-		if !strings.Contains(blk, label) || !strings.Contains(blk, "unblindProposal.func1") {
+		if !strings.Contains(blk, label) || !strings.Contains(blk, "unblindProposal.func") {
 			continue
 		}
 		count := 1
@@ -232,7 +232,7 @@ func c20Profile(id int) (total int, sending int) {
 			// innermost frame: "#\t0x4ce0bd\tpkg.func+0x1d\t/path/file.go:13"
 			f := strings.Fields(ln)
 			loc := f[len(f)-1]
-			if i := strings.LastIndex(loc, ":"); i > 0 && strings.Contains(ln, "unblindProposal.func1") {
+			if i := strings.LastIndex(loc, ":"); i > 0 && strings.Contains(ln, "unblindProposal.func") {
 				if n, err := strconv.Atoi(loc[i+1:]); err == nil && c20IsSend(loc[:i], n) {
 					sending += count
 				}
